@@ -246,6 +246,16 @@ def _run_locked(ctx, target, out_path, props_path, module, key, namespace, limit
                       % namespace + (", %s." % namespace).join(failed))
             ctx.lean_problems.append("lake build %s failed: %s" % (module, " | ".join(errs[:8])))
             return
+        # ---- the translated functions without a tie (separate file, no property imports it): they must at least compile
+        untied = out_path[:-len(".lean")] + "_untied.lean"
+        if os.path.exists(untied):
+            umod = "Generated." + os.path.basename(untied)[:-len(".lean")]
+            rcu, outu = core.sh(["lake", "build", umod], cwd=core.LEAN, timeout=limit)
+            ctx.extra[key + "_ssa_untied"] = info.get("untied") or []
+            ctx.extra[key + "_ssa_untied_builds"] = rcu == 0
+            if rcu != 0:
+                print("NOTE (translator tie): %s (translated functions without a tie theorem) does not compile: %s"
+                      % (os.path.relpath(untied, core.VERIF), " | ".join(l for l in outu.splitlines() if "error" in l)[:300]))
         # ---- audit
         audit = os.path.join(core.LEAN, "Audit", module.split(".")[-1] + ".lean")
         os.makedirs(os.path.dirname(audit), exist_ok=True)
@@ -280,9 +290,44 @@ def _run_locked(ctx, target, out_path, props_path, module, key, namespace, limit
     ctx.extra["forbidden_token_hits"] = sorted(set(prev_hits) | set(ctx.extra.get("forbidden_token_hits", [])))
 
 
+# the ties that can be run on their own (`python3 -m vlib.gentie --run <target>`): target -> arguments of run()
+STANDALONE = {
+    "txt": dict(target="txt", generated="SSA_Txt.lean", module="Props.C20Gen", key="txt", namespace="C20Gen"),
+    "bitset": dict(target="bitset", generated="SSA_Bitset.lean", module="Props.C08Gen", key="bitset", namespace="C08Gen"),
+    "numloops": dict(target="numloops", generated="SSA_NumLoops.lean", module="Props.C01GenLoops", key="numloops",
+                     namespace="C01GenLoops"),
+}
+
+
+class _Standalone(core.Ctx):
+    """the part of a check context that run() uses, without the work directory and the locks of a real check"""
+
+    def __init__(self, repo, tier):
+        self.repo = os.path.abspath(repo)
+        self.tier = tier
+        self.theorems, self.lean_problems, self.rules, self.checker_cmds = [], [], [], []
+        self.extra = {}
+
+
+def run_standalone(name, repo, tier="quick"):
+    """exit status 0: every tie theorem of the target checks against the definitions regenerated from `repo`"""
+    ctx = _Standalone(repo, tier)
+    run(ctx, **STANDALONE[name])
+    bad = [t["name"] for t in ctx.theorems if not t["ok"]]
+    print("translator tie %s on %s: %d translated, %d theorems, %d not discharged"
+          % (name, ctx.repo, len(ctx.extra.get(STANDALONE[name]["key"] + "_ssa_translated", [])), len(ctx.theorems), len(bad)))
+    for p in ctx.lean_problems:
+        print("PROBLEM: " + p[:700])
+    if bad:
+        print("not discharged: " + ", ".join(bad))
+    return 1 if (ctx.lean_problems or bad) else 0
+
+
 if __name__ == "__main__":
     import sys
     if len(sys.argv) >= 2 and sys.argv[1] == "--update-expected":
         update_expected(sys.argv[2:] or ["f64", "f128", "geom"], os.environ.get("VERIF_REPO", "/repo"))
+    elif len(sys.argv) >= 3 and sys.argv[1] == "--run":
+        sys.exit(run_standalone(sys.argv[2], os.environ.get("VERIF_REPO", "/repo"), os.environ.get("VERIF_TIER", "quick")))
     else:
         print(__doc__)
